@@ -21,7 +21,7 @@ ASSUMPTIONS = [
 
 
 def gen_cases(tier, seed):
-    n = 500 if tier == "quick" else 15000
+    n = 500 if tier == "quick" else 8000
     out = []
     for i in range(n):
         s = env.seed_for(seed, ID, tier, i)
